@@ -378,7 +378,7 @@ class C04(Check):
             if any(a.get("err") == impl["err"] for a in alts):
                 return None
             if any(a.get("err") == impl["err"] for a in model.get("near", [])):
-                return "TIE: float near-tie (reproduced when every LP optimum is nudged by 1e-10)"
+                return "TIE: float near-tie (reproduced when every LP optimum is nudged by 1e-10 or every LP is solved inside |v| <= 1e9: float near-tie or a slope below float resolution)"
             return f"impl {impl['err']} vs model {[a.get('err', 'ok') for a in alts]}"
         w = G.w_tl(impl["ok"], vm)
         for a in alts:
@@ -386,7 +386,7 @@ class C04(Check):
                 return None
         for a in model.get("near", []):
             if "ok" in a and C.tls_close(w, a["ok"]) and [int(x) for x in a["tactics"]] == impl["tactics"]:
-                return "TIE: float near-tie (reproduced when every LP optimum is nudged by 1e-10)"
+                return "TIE: float near-tie (reproduced when every LP optimum is nudged by 1e-10 or every LP is solved inside |v| <= 1e9: float near-tie or a slope below float resolution)"
         if json.dumps(alts[0].get("ok"), sort_keys=True) != json.dumps(alts[1].get("ok"), sort_keys=True):
             return "TIE: exact ties in simplification resolved in a mixed way"
         a = alts[0]
